@@ -212,6 +212,31 @@ CHECKS["C14"] = (
     "bounded-exhaustive input + scripted-environment enumeration vs "
     "closed-form reference model")
 
+CHECKS["C11"] = (
+    "4/C11",
+    "(1) Program enumeration on the real Model/Mapper: scatterer structure "
+    "(single, layered, collections of 1-4, nested) x subset of prior sites "
+    "(<= 4) x EVERY set partition of the chosen sites into shared prior "
+    "objects x naming pattern (unnamed / named / colliding / looks-like-"
+    "auto-name) x wrapper (bare, 2*P, P+Q, ComplexPrior, np.sqrt, "
+    "per-channel dict): parameter count = distinct priors, unique names, "
+    "value-to-place mapping for three value vectors, dict-keyed = "
+    "list-ordered, initial-guess scatterer, fixed values untouched.  (2) "
+    "Explicit-state breadth-first search over Model.add_tie from fresh "
+    "models with up to 5 equal tie candidates + 1 unequal: every subset x "
+    "new_name option as a transition, states canonicalised and "
+    "deduplicated, a union-find reference model checked in every state "
+    "(2151 states / 54789 transitions in thorough), refusals must leave the "
+    "state unchanged; live objects rebuilt by replaying histories.  (3) "
+    "from_parameters(parameters) round trips incl. RigidCluster and "
+    "aliasing checks.",
+    "Trusted: the union-find reference model.  A prior shared between the "
+    "scatterer and a non-scatterer place (alpha/optics) is outside the "
+    "statement and only recorded.",
+    "explicit-state BFS over the real transition function (add_tie) with "
+    "canonical-state deduplication + bounded-exhaustive program "
+    "enumeration vs reference model")
+
 NOT_YET = {}
 
 
